@@ -232,10 +232,7 @@ def option_slice(fn: ast.FunctionDef, option: str, classes: Optional[Set[str]] =
                 for n in ast.walk(st):
                     if isinstance(n, ast.Call):
                         control.add((_callee(n), n.lineno))
-                if isinstance(st, ast.Assign):
-                    for t_ in st.targets:
-                        if isinstance(t_, ast.Name):
-                            control.add((f"={t_.id}", st.lineno))
+                # (binding a local is not an effect of its own: what is computed for it - the calls above - is)
                 if isinstance(st, ast.Raise):
                     control.add(("raise", st.lineno))
 
